@@ -38,6 +38,38 @@ type Keyring struct {
 	N         int
 	Signers   []chain.Signing // index 0 unused; 1..N members; N+1 outsider
 	Addresses []chain.Address // seat k (0-based) -> operator address
+	// genuine signatures of the current case: a member signs a hash once and
+	// re-broadcasts the same bytes, so copies of it are byte-identical
+	genuine map[string][]byte
+}
+
+// NewCase forgets the genuine signatures of the previous case.
+func (k *Keyring) NewCase() { k.genuine = map[string][]byte{} }
+
+// SetGenuine registers a signature produced by the code under test (the
+// receiver's own signature) so that it can be copied by other senders.
+func (k *Keyring) SetGenuine(owner int, hash [32]byte, sig []byte) {
+	if k.genuine == nil {
+		k.genuine = map[string][]byte{}
+	}
+	k.genuine[fmt.Sprintf("%d/%x", owner, hash)] = sig
+}
+
+// Genuine returns owner's signature over hash, the same bytes every time
+// within a case.
+func (k *Keyring) Genuine(owner int, hash [32]byte) ([]byte, error) {
+	if k.genuine == nil {
+		k.genuine = map[string][]byte{}
+	}
+	key := fmt.Sprintf("%d/%x", owner, hash)
+	if s, ok := k.genuine[key]; ok {
+		return s, nil
+	}
+	s, err := k.Signers[owner].Sign(hash[:])
+	if err == nil {
+		k.genuine[key] = s
+	}
+	return s, err
 }
 
 func NewKeyring(n int) (*Keyring, error) {
@@ -117,7 +149,10 @@ func (k *Keyring) Realize(m kit.V, variant int, mine, other [32]byte) (Concrete,
 	}
 	var err error
 	if m.Get("sig").Str() == "valid" {
-		c.Signature, err = k.Signers[keyOwner].Sign(c.Hash[:])
+		c.Signature, err = k.Genuine(keyOwner, c.Hash)
+	} else if m.Get("sig").Str() == "copy" {
+		c.Signature, err = k.Genuine(m.Get("src").Int(), c.Hash)
+		how += fmt.Sprintf("sig-copied-from-%d;", m.Get("src").Int())
 	} else {
 		switch (variant / 6) % 4 {
 		case 0:
